@@ -2,6 +2,7 @@ package receiver
 
 import (
 	"bytes"
+	"errors"
 	"fmt"
 	"io"
 	"io/fs"
@@ -155,6 +156,11 @@ func (rt *Transfer) recvGenerator(idx int, f *File) error {
 
 	local := filepath.Join(rt.Dest, f.Name)
 	st, err := rt.DestRoot.Lstat(f.Name)
+	if rt.Opts.DryRun && errors.Is(err, syscall.ENOTDIR) {
+		// A parent of this entry is not a directory. A real run would have
+		// replaced it with a directory by now; a dry run left it alone.
+		err = fs.ErrNotExist
+	}
 
 	mode := f.Mode & rsync.S_IFMT
 	if mode == rsync.S_IFDIR {
@@ -216,6 +222,9 @@ func (rt *Transfer) recvGenerator(idx int, f *File) error {
 		if rt.Opts.DebugGTE(rsyncopts.DEBUG_GENR, 1) {
 			rt.Logger.Printf("symlink %s -> %s", f.Name, f.LinkTarget)
 		}
+		if rt.Opts.DryRun {
+			return nil
+		}
 		if err := symlink(rt.DestRoot, f.LinkTarget, f.Name); err != nil {
 			return err
 		}
@@ -229,6 +238,9 @@ func (rt *Transfer) recvGenerator(idx int, f *File) error {
 		mode == rsync.S_IFBLK ||
 		mode == rsync.S_IFSOCK ||
 		mode == rsync.S_IFIFO) {
+		if rt.Opts.DryRun {
+			return nil
+		}
 		if err := rt.createDevice(f, st); err != nil {
 			return err
 		}
@@ -270,6 +282,9 @@ func (rt *Transfer) recvGenerator(idx int, f *File) error {
 	}
 
 	if !st.Mode().IsRegular() {
+		if rt.Opts.DryRun {
+			return requestFullFile()
+		}
 		// A non-regular file with this name exists. Delete it so that we can
 		// create our file instead.
 		if err := rt.DestRoot.Remove(f.Name); err != nil {
